@@ -25,22 +25,22 @@ func init() {
 
 	register(&core.Rule{ID: "C05.1", Prop: "C05", MinSites: 15,
 		Desc: "confinement: no function in the any-goroutine closure accesses a loop-owned field or calls into the buffer packages (enumerated exceptions: fresh conns, c.remote of datagram conns)",
-		Run: runC05_1})
+		Run:  runC05_1})
 	register(&core.Rule{ID: "C05.2", Prop: "C05", MinSites: 15,
 		Desc: "atomic-only: every struct field or global that is accessed through sync/atomic somewhere in the module is accessed atomically everywhere (or in a store initialising a fresh object)",
-		Run: runC05_2})
+		Run:  runC05_2})
 	register(&core.Rule{ID: "C05.3", Prop: "C05", MinSites: 10,
 		Desc: "identity fields conn.{fd,loop,proto,isDatagram} and eventloop.{engine,poller,buffer,listeners,eventHandler,idx} are written only into an object allocated in the writing function (constructors / start-up) or by the load-balancer registration",
-		Run: runC05_3})
+		Run:  runC05_3})
 	register(&core.Rule{ID: "C05.4", Prop: "C05", MinSites: 8,
 		Desc: "every call of EventHandler.OnOpen/OnTraffic/OnClose, of an AsyncCallback or of Runnable.Run lies in a function outside the any-goroutine closure",
-		Run: runC05_4})
+		Run:  runC05_4})
 	register(&core.Rule{ID: "C05.5", Prop: "C05", MinSites: 4,
 		Desc: "loop identity: at every registration site the eventloop handed to the conn constructor is the one whose poller receives the register task (or whose register0 is called)",
-		Run: runC05_5})
+		Run:  runC05_5})
 	register(&core.Rule{ID: "C05.6", Prop: "C05", MinSites: 6,
 		Desc: "goroutines are spawned only via engine.concurrency.Go (loops, tickers) and the enroll worker pool; there is no go statement in library code outside pkg/logging and the pool wrapper",
-		Run: runC05_6})
+		Run:  runC05_6})
 }
 
 // anyGoroutineRoots lists the functions that may run on arbitrary goroutines (DESIGN §3.1, class A).
